@@ -32,6 +32,25 @@ def _resolve(cls_init: FuncInfo, e: ast.AST, depth: int = 3) -> ast.AST:
     return e
 
 
+class _ExpandGet(ast.NodeTransformer):
+    """D.get(k, d)  ->  (D[k] if k in D else d)"""
+
+    def visit_Call(self, node):
+        self.generic_visit(node)
+        if isinstance(node.func, ast.Attribute) and node.func.attr == "get" and len(node.args) == 2 and not node.keywords:
+            d, k, dflt = node.func.value, node.args[0], node.args[1]
+            return ast.IfExp(test=ast.Compare(left=k, ops=[ast.In()], comparators=[d]),
+                             body=ast.Subscript(value=d, slice=k, ctx=ast.Load()), orelse=dflt)
+        return node
+
+
+def expand_get(e: ast.AST) -> ast.AST:
+    import copy
+    out = _ExpandGet().visit(copy.deepcopy(e))
+    ast.fix_missing_locations(out)
+    return ast.parse(ast.unparse(out), mode="eval").body
+
+
 def _flow_reads(e: ast.AST) -> List[ast.Subscript]:
     """Reads of an edge's own flow value: data[self.flow_attr] / G[u][v][flow_attr] / .edges[e][flow_attr]."""
     out = []
@@ -92,6 +111,8 @@ def _weights_admit_continuous(prog: Program, cname: str) -> Optional[Tuple[FuncI
                     vt = kwarg(c, "var_type")
                     if vt is None:
                         raise AnalysisError(f"{cname}.{m.name}: weights created without var_type")
+                    if isinstance(vt, ast.Name):
+                        vt = local_single_defs(m.node).get(vt.id, vt)
                     txt = norm(vt)
                     if "'continuous'" in txt or '"continuous"' in txt:
                         return m, c
@@ -126,6 +147,14 @@ def cap_premises(prog: Program, rep, RID: str, cname: str, which=("P1", "P2", "P
     if v is None:
         raise AnalysisError(f"{cname}.__init__: no repetition cap is passed to the walk base class")
     e = _resolve(g, v)
+    # canonical form where it can be computed: accumulator loops become comprehensions, D.get(k, d) becomes `D[k] if k in D else d`, the
+    # edge-data idioms (edges(data=True), G[u][v], G.edges[u, v]) become one
+    try:
+        from rules.common import canonical_value
+        e = ast.parse(canonical_value(g.node, v), mode="eval").body
+    except (SyntaxError, AnalysisError):
+        pass
+    e = expand_get(e)
     txt = norm(e)
     n = 0
     from_flow_values = bool(_flow_reads(e)) or "compute_edge_max_reachable_value" in txt or "w_max" in txt
@@ -213,35 +242,46 @@ def product_covers_rhs(prog: Program, rep, RID: str, cname: str = "MinGenSet", m
     """sum_i pi[(i, j)] == numbers[j] with pi = x * g: as soon as multiplicities above 1 are allowed a single product can be as large as
     the number itself, which can exceed the total (9 = 3 * 3, total 3).  The bound of the product variables and of the integer
     product helper therefore has to cover max(numbers), not only the total."""
-    f = prog.own_method(cname, mname)
-    defs = local_single_defs(f.node)
+    f = prog.own_method(cname, mname) if mname in prog.cls(cname).methods else None
     n = 0
-
-    def resolve(e):
-        for _ in range(3):
-            if isinstance(e, ast.Name) and e.id in defs:
-                e = defs[e.id]
-        return e
     sites = []
-    for c in calls_in(f.node):
-        if not isinstance(c.func, ast.Attribute):
-            continue
-        if c.func.attr == "add_variables":
-            pref = kwarg(c, "name_prefix")
-            if isinstance(pref, ast.Constant) and pref.value == family_prefix:
-                sites.append(("variables " + family_prefix, c, kwarg(c, "ub")))
-        if c.func.attr == "add_integer_continuous_product_constraint":
-            pv = kwarg(c, "product_var")
-            if pv is not None and f"{family_prefix}_vars" in norm(pv):
-                sites.append(("integer product helper", c, kwarg(c, "ub")))
+    # the whole class is scanned (nested functions included): a restructuring may move the declarations into helpers
+    for m_ in prog.cls(cname).methods.values():
+        mdefs = local_single_defs(m_.node)
+        for fn_ in [x for x in ast.walk(m_.node) if isinstance(x, (ast.FunctionDef, ast.AsyncFunctionDef))]:
+            for k_, v_ in local_single_defs(fn_).items():
+                mdefs.setdefault(k_, v_)
+        # a name bound several times to the same expression (a definition repeated in two inlined helpers) has that value
+        multi: Dict[str, List[ast.AST]] = {}
+        for st_ in ast.walk(m_.node):
+            if isinstance(st_, ast.Assign) and len(st_.targets) == 1 and isinstance(st_.targets[0], ast.Name):
+                multi.setdefault(st_.targets[0].id, []).append(st_.value)
+        for k_, vs_ in multi.items():
+            if k_ not in mdefs and len({norm(v_) for v_ in vs_}) == 1:
+                mdefs[k_] = vs_[0]
+        for c in [x for x in ast.walk(m_.node) if isinstance(x, ast.Call)]:
+            if not isinstance(c.func, ast.Attribute):
+                continue
+            if c.func.attr == "add_variables":
+                pref = kwarg(c, "name_prefix")
+                if isinstance(pref, ast.Constant) and pref.value == family_prefix:
+                    sites.append(("variables " + family_prefix, c, kwarg(c, "ub"), m_, mdefs))
+            if c.func.attr == "add_integer_continuous_product_constraint":
+                pv = kwarg(c, "product_var")
+                starred = any(k.arg is None for k in c.keywords)
+                if (pv is not None and f"{family_prefix}_vars" in norm(pv)) or (pv is None and starred):
+                    sites.append(("integer product helper", c, kwarg(c, "ub"), m_, mdefs))
     if len(sites) < 2:
         raise AnalysisError(f"{cname}.{mname}: product variables `{family_prefix}` and their integer product helper not found")
-    for what, c, ub in sites:
+    for what, c, ub, f, defs in sites:
         n += 1
         key = f"{cname}.{mname}:{what.replace(' ', '-')}:ub"
         if ub is None:
             raise AnalysisError(f"{cname}.{mname}: {what} without ub")
-        e = resolve(ub)
+        e = ub
+        for _ in range(3):
+            if isinstance(e, ast.Name) and e.id in defs:
+                e = defs[e.id]
         if _covers_collection(e, rhs_coll):
             rep.ok(RID, key, f"ub = `{norm(e)}` covers every number to be generated", f.loc(c))
         else:
